@@ -1,4 +1,5 @@
 import FstVerif.Proofs.Seek
+import FstVerif.Proofs.EndToEnd
 /-
 C03 — range streams. Statements here; proofs in Proofs/Stream.lean (explicit
 stack = denotation, cut-off at the upper bound) and Proofs/Seek.lean (lower
@@ -56,6 +57,21 @@ theorem C03_stays_done (hg : GoodStore s den) (hr : Represents acc s) (root : Na
   exact ⟨s0, h0, N, fun fuel hf => by
     obtain ⟨sEnd, h1, h2⟩ := hN fuel hf
     exact ⟨sEnd, _, h1, h2⟩⟩
+
+/-- END TO END, on the bytes of the file a builder writes: every range over every sorted map -/
+theorem C03_file (rows cols ty : Nat) (hty : ty < 2^64) (kvs : KV) (hs : SortedKV kvs)
+    (hv : ∀ kv ∈ kvs, kv.2 < 2^64) (hn : kvs.length < 2^64) :
+    ∃ s bytes, insertAll (BState.new rows cols) kvs = .ok s ∧ s.fileBytes ty = .ok bytes ∧
+      (bytes.length < 2^64 →
+        ∃ m, fstNew (Src.ofList bytes) = .ok m ∧
+          ∀ (min max : Bound),
+            ∃ s0, streamNew (byteAccess 3 (Src.ofList bytes)) autAlways m.rootAddr min max
+                = some s0 ∧
+            ∃ N, ∀ fuel, N ≤ fuel →
+              streamCollect (byteAccess 3 (Src.ofList bytes)) autAlways m.rootAddr fuel s0 [] =
+                some ((kvs.filter fun kv => lowerOK min kv.1 && upperOK max kv.1).map
+                      fun kv => (kv.1, kv.2, ()))) :=
+  E2E.e2e_range rows cols ty hty kvs hs hv hn
 
 example : GoodStore StreamExample.exStore StreamExample.exDen := StreamExample.exGood
 
